@@ -11,3 +11,5 @@ import SuxModel.Props.C10
 #print axioms Sux.BFV.chunk_zero_panics
 #print axioms Sux.BFV.unaligned_eq_get
 #print axioms Sux.BFV.unaligned_eq_get_call
+#print axioms Sux.BFV.slice_copy_spec
+#print axioms Sux.BFV.slice_copy_panics
